@@ -9,7 +9,8 @@ COQ_FN = "RunV.run_c02"
 COQ_CASE_TY = "(ty * val)"
 NAMES = ["P:encode_bytes", "P:serialize_stream", "P:dunder_bytes"]
 RULE = ("random types x values as in C01; observables encode_bytes(), serialize(stream) into a stream with a random "
-        "prefix (bytes written, returned count), bytes(value); non-trivial = composite type and non-zero value")
+        "prefix (bytes written, returned count), bytes(value); model-free: the same value reached by mutation encodes to the "
+        "same bytes, the first time and again; non-trivial = composite type and non-zero value")
 
 
 def gen_inputs(ctx):
@@ -35,4 +36,27 @@ def build(inp):
         o2 = attempt(ser, anyerr=True)
         o3 = attempt(lambda: bytes(x), anyerr=True)
         obs = [o1, o2, o3]
-    return Case(inp, "(%s, %s)" % (ty_coq(t), val_coq(t, v)), obs, NAMES, nontrivial=nontrivial_tv(t, v), kind=t[0])
+    c = Case(inp, "(%s, %s)" % (ty_coq(t), val_coq(t, v)), obs, NAMES, nontrivial=nontrivial_tv(t, v), kind=t[0])
+    c.why = None
+    if not isinstance(x, E) and not isinstance(obs[0], E) and not is_basic(t):
+        # model-free: the same value reached by mutation (default value, then element / bit writes, appends, one element
+        # too many popped back) encodes to the same bytes — the first time and again (serialising must not disturb it)
+        try:
+            from props.c01 import mutate_into
+            m = mutate_into(t, v)
+            e1, e2, e3 = bytes(m.encode_bytes()), bytes(m.encode_bytes()), bytes(m)
+            st = io.BytesIO()
+            cnt = m.serialize(st)
+            if e1 != obs[0]:
+                c.why = "the value reached by mutation encodes differently from the constructed one"
+            elif e2 != e1 or e3 != e1 or st.getvalue() != e1 or int(cnt) != len(e1):
+                c.why = "encoding the same (mutated) value again gives other bytes / another count than the first time"
+            elif bytes(m.hash_tree_root()) != bytes(x.hash_tree_root()):
+                c.why = "serialising a mutated value disturbed its root"
+        except Exception as ex:  # noqa
+            c.why = "the value could not be reached by mutation / encoded: %r" % (ex,)
+    return c
+
+
+def direct_violation(c):
+    return c.why
